@@ -263,7 +263,8 @@ def run_shard(spec, ctx):
     rec = core.Rec()
     if ctx.quick:
         core.enum_shard(core.sliced(g.call_core_cases(), ctx.index, ctx.nshards), check_case, ctx, rec=rec)
-        core.hyp_shard(g.call_case(), check_case, ctx, 2500, rec=rec, tag="call")
+        if not rec.violations:
+            core.hyp_shard(g.call_case(), check_case, ctx, 2500, rec=rec, tag="call")
     else:
         # thorough: the complete product of the grammar (about 2.6e5 programs)
         core.enum_shard(core.sliced(g.call_full_cases(), ctx.index, ctx.nshards), check_case, ctx, rec=rec)
